@@ -15,13 +15,13 @@ pub fn def() -> CheckDef {
     CheckDef {
         id: "C20",
         level: "exploration",
-        rule: "(a) for every seed grammar, harness seed and member of a family of untyped (cyclic and acyclic) nonterminal sets, the generator is run with the hooked iteration order set to every permutation index p < k! (k <= 5 keys; beyond: identity, reverse and rotations); outputs and success must equal those of p = 0. (b) three grammars: every non-empty subset under every assignment of file names a/b/c (hence every processing order) in one directory via process_dir, and each alone via process_file, all in one process, compared byte for byte with the output of the real CLI in a fresh process. (c) 6 fresh CLI processes per seed grammar (sampling of real RandomState seeds). distinct_nontrivial = (grammar, permutation) runs with p != 0 on a site that saw >= 2 keys, plus batch members processed after another file",
+        rule: "(a) for every seed grammar, harness seed and member of a family of untyped (cyclic and acyclic) nonterminal sets, the generator is run with the hooked iteration order set to every permutation index p < k! (k <= 5 keys; beyond: identity, reverse and rotations); outputs and success must equal those of p = 0. (b) three grammars: every non-empty subset under every assignment of file names a/b/c (hence every processing order) in one directory via process_dir, and each alone via process_file, all in one process, compared byte for byte with the output of the real CLI in a fresh process. (c1) the real CLI under a getrandom() shim (LD_PRELOAD) that makes the SipHash keys of every HashMap/HashSet of the process a function of a harness-chosen seed: seeds 1..8 (thorough 32) per grammar must write identical bytes; a probe program checks on every run that the shim really controls iteration order. (c2) 3 fresh CLI processes per grammar with real RandomState seeds (sampling, labelled so). distinct_nontrivial = (grammar, permutation) runs with p != 0 on a site that saw >= 2 keys, plus batch members processed after another file",
         evaluations: "generations",
         nontrivial: "nontrivial",
         mc: None,
-        require: &["generations", "nontrivial", "hook_events", "permutations_tried", "batch_members_after_another", "fresh_process_runs"],
+        require: &["generations", "nontrivial", "hook_events", "permutations_tried", "batch_members_after_another", "fresh_process_runs", "seeded_process_runs"],
         exhaustive: true,
-        assumptions: &["the hook covers the only hash-ordered iteration that reaches the output (tyinfer::infer_types); a new iteration site elsewhere is only reachable by the fresh-process sampling of part (c), which is sampling and labelled so", "diagnostics of rejected grammars are not compared, only success and output bytes"],
+        assumptions: &["the hook enumerates every order at the one hash-ordered iteration that used to reach the output (tyinfer::infer_types); any other iteration site is reached by part (c1), where each seed fixes all hash orders of the process at once: reproducible, but a sweep over seeds, not over all orders", "diagnostics of rejected grammars are not compared, only success and output bytes"],
         shards: 0,
         run,
         crash_class: Some("generator"),
@@ -201,8 +201,27 @@ fn run(ctx: &mut Ctx) {
         }
         ctx.end_case();
     }
-    // ---- (c) fresh processes (sampling of RandomState seeds)
-    let n_fresh = 6;
+    // ---- (c) fresh processes. (c1) hash seeds owned by the harness: a getrandom() shim makes the
+    // SipHash keys of every HashMap/HashSet of the child a function of $VERIF_HASH_SEED; the CLI is
+    // run under seeds 1..K and must write identical bytes. (c2) real RandomState seeds: sampling.
+    let shim = crate::fw::verif_dir().join("target/seedrand.so");
+    let probe = crate::fw::verif_dir().join("target/hashorder");
+    let probe_run = |seed: Option<u32>| -> Option<String> {
+        let mut c = std::process::Command::new(&probe);
+        if let Some(s) = seed {
+            c.env("LD_PRELOAD", &shim).env("VERIF_HASH_SEED", s.to_string());
+        }
+        c.output().ok().map(|o| String::from_utf8_lossy(&o.stdout).to_string())
+    };
+    let shim_ok = match (probe_run(Some(1)), probe_run(Some(1)), probe_run(Some(2)), probe_run(Some(3))) {
+        (Some(a), Some(b), Some(c), Some(d)) => !a.is_empty() && a == b && (a != c || a != d),
+        _ => false,
+    };
+    if !shim_ok {
+        ctx.machinery("the getrandom shim does not control the hash iteration order of a child process (target/seedrand.so, target/hashorder)".to_string());
+    }
+    let n_seeds: u32 = if thorough { 32 } else { 8 };
+    let n_fresh = 3;
     for (i, (name, text)) in texts.iter().enumerate().step_by(if thorough { 1 } else { 5 }) {
         if text.len() > 4000 || name.starts_with("untyped-") && i % 40 != 0 {
             continue;
@@ -212,6 +231,17 @@ fn run(ctx: &mut Ctx) {
             continue;
         }
         let first = cli_output(&cli, &dir, text);
+        if shim_ok {
+            for seed in 1..=n_seeds {
+                ctx.count("seeded_process_runs");
+                ctx.count("generations");
+                let o = cli_output_seeded(&cli, &dir, text, Some((&shim, seed)));
+                if o != first {
+                    ctx.violation("hash-seed-changes-output", format!("{}: with hash seed {} the CLI wrote different bytes (or its verdict changed)", name, seed), json!({"origin": name, "text": text, "hash_seed": seed}));
+                    break;
+                }
+            }
+        }
         for _ in 1..n_fresh {
             ctx.count("fresh_process_runs");
             ctx.count("generations");
@@ -247,12 +277,20 @@ fn next_perm(p: &mut Vec<usize>) -> bool {
 }
 
 fn cli_output(cli: &Path, dir: &Path, text: &str) -> Option<String> {
+    cli_output_seeded(cli, dir, text, None)
+}
+
+fn cli_output_seeded(cli: &Path, dir: &Path, text: &str, seed: Option<(&Path, u32)>) -> Option<String> {
     let d = dir.join("fresh");
     let _ = std::fs::remove_dir_all(&d);
     std::fs::create_dir_all(&d).ok()?;
     // same file name as the in-process driver, so that nothing that depends on the name differs
     std::fs::write(d.join("g.lalrpop"), text).ok()?;
-    let st = std::process::Command::new(cli).current_dir(&d).args(["-f", "g.lalrpop"]).stdout(std::process::Stdio::null()).stderr(std::process::Stdio::null()).status().ok()?;
+    let mut c = std::process::Command::new(cli);
+    if let Some((shim, s)) = seed {
+        c.env("LD_PRELOAD", shim).env("VERIF_HASH_SEED", s.to_string());
+    }
+    let st = c.current_dir(&d).args(["-f", "g.lalrpop"]).stdout(std::process::Stdio::null()).stderr(std::process::Stdio::null()).status().ok()?;
     if !st.success() {
         return None;
     }
